@@ -1,14 +1,14 @@
 (* C18 -- FileSync copies shared tag bodies and touches nothing else. *)
 From Coq Require Import String List Bool.
 From KV Require Import Lib.Str Lib.ODict Model.PreserveCore Model.Preserve
-                       Proofs.PreserveCoreProofs Proofs.PreserveStr Proofs.PreserveSync.
+                       Proofs.PreserveCoreProofs Proofs.PreserveStr Proofs.PreserveSync Model.Output Proofs.OutputProofs.
 Import ListNotations.
 Open Scope string_scope.
 
 (* B = any text in which tag pairs (with arbitrary bodies) and plain lines alternate arbitrarily.  The new
    content of B is B with the body of every pair whose cleaned name is a tag of A replaced by A's body; all
    other lines (text outside pairs, the tag lines themselves, bodies of pairs that exist only in B) are kept
-   byte for byte, in order.  (The model writes nothing but B: A is not an output of [file_sync].)  A is ANY file: every key CollectFile produces
+   byte for byte, in order.  (That nothing but B -- and a LostCode sibling -- is written is C18_source_untouched below.)  A is ANY file: every key CollectFile produces
    contains the tag prefix (Proofs/CleanProofs.v: CleanUpLine never removes a character of the prefix, a source-derived
    obligation over the pattern chain). *)
 Theorem C18_shared_replaced_rest_untouched : forall a (B : list bitem_s),
@@ -24,6 +24,22 @@ Theorem C18_idempotent : forall a (B : list bitem_s),
   file_sync a b1 = b1.
 Proof. exact sync_idempotent. Qed.
 Print Assumptions C18_idempotent.
+
+(* FileSync as file-system operations (Model/Output.filesync_ops, compared with the traced operations of real runs):
+   every path other than B and B's LostCode sibling -- in particular A -- holds exactly what it held before *)
+Theorem C18_source_untouched : forall path_b a b s p,
+  jobs_okb (filesync_jobs path_b a b) = true -> is_tmp p = false ->
+  ~ In p (targets (filesync_jobs path_b a b)) ->
+  fs_get p (disk_fs (run (filesync_ops path_b a b) s)) = fs_get p (disk_fs s).
+Proof. exact filesync_touches_only_its_targets. Qed.
+Print Assumptions C18_source_untouched.
+
+Theorem C18_b_receives_the_synchronised_content : forall path_b a b s,
+  jobs_okb (filesync_jobs path_b a b) = true -> is_tmp path_b = false ->
+  fs_get path_b (disk_fs (run (filesync_ops path_b a b) s))
+  = Some (concat_lines (fst (emplace true (collect (read_lines a)) (read_lines b)))).
+Proof. exact filesync_writes_b. Qed.
+Print Assumptions C18_b_receives_the_synchronised_content.
 
 Definition ex_a : string :=
   concat_lines [bs [47;47;32;123;123;123;85;83;69;82;95;88;125;125;125;10]; bs [65;9;49;10]; bs [10]; bs [10];
